@@ -525,7 +525,7 @@ func (g *vGen) hostilePrefix(steps int, hostile bool) {
 			s.exec(&vOp{Op: "restart", N: c.At})
 		case x < 97 && hostile && r.Intn(2) == 0:
 			// the node's database is busy when the next received transaction is added
-			s.exec(&vOp{Op: "fault", N: c.At})
+			s.exec(&vOp{Op: "fault", N: c.At, Mode: []string{"busy", "cancel"}[r.Intn(2)]})
 		case x < 98:
 			// a node creates a transaction of its own
 			k := c.At
@@ -585,16 +585,22 @@ func (g *vGen) runScenario(idx int, dir string) vVerdict {
 		}
 		feats = append(feats, "restarts")
 	}
-	// transient "database busy" faults during the fair suffix: the next Add of a received transaction fails on every node, once
-	// more on one node a round later (a failed Add is a lost TransactionList: later rounds make up for it)
+	// transient faults during the fair suffix: the next Add of a received transaction fails on every node - the database is busy
+	// (no transaction comes into being) or the caller's context is cancelled while the write transaction runs (rollback at commit,
+	// the in-memory trees are reloaded) -, the other kind once more on one node a round later. A failed Add is a lost
+	// TransactionList: later rounds make up for it
 	extra := 0
 	if idx%3 == 2 {
-		var everyone []int
-		for i := 0; i < nNodes; i++ {
-			everyone = append(everyone, i)
+		kinds := []string{"busy", "cancel"}
+		if idx%6 == 5 {
+			kinds = []string{"cancel", "busy"}
 		}
-		s.faultAt = map[int][]int{0: everyone, 1 + r.Intn(2): {r.Intn(nNodes)}}
-		feats = append(feats, "db-busy-faults")
+		var everyone []vFaultAt
+		for i := 0; i < nNodes; i++ {
+			everyone = append(everyone, vFaultAt{i, kinds[0]})
+		}
+		s.faultAt = map[int][]vFaultAt{0: everyone, 1 + r.Intn(2): {{r.Intn(nNodes), kinds[1]}}}
+		feats = append(feats, "add-faults")
 		extra = 8
 	}
 	// a connection flap before the fair suffix: both ends see the stream go and the SAME peer come back (same key); transactions are
